@@ -20,8 +20,21 @@ type c03Ent struct {
 
 type c03Replayer struct {
 	h    *zz.H
+	c    *Cache // when set: at callback time the tree already holds the announced state (ordering lemma L1 of C04)
 	ents []*c03Ent
 	log  []*pb.Notification
+}
+
+// stored returns the leaf handle the cache holds at index path idx (target first), nil if none.
+func (r *c03Replayer) stored(idx []string) *ctree.Leaf {
+	if r.c == nil || len(idx) == 0 {
+		return nil
+	}
+	t := r.c.targets[idx[0]]
+	if t == nil {
+		return nil
+	}
+	return t.t.GetLeaf(idx[1:])
 }
 
 func c03IsPrefix(p, q []string) bool { // p is a prefix of q (or equal)
@@ -53,6 +66,9 @@ func (r *c03Replayer) apply(l *ctree.Leaf) {
 				e.live = false
 			}
 		}
+		if r.c != nil {
+			r.h.Assert(r.stored(pre) == l, "C03: when an atomic update is announced the cache already holds it under that handle")
+		}
 		r.ents = append(r.ents, &c03Ent{pre, l, n, true})
 	case len(n.Update) > 0:
 		r.h.Assert(len(n.Update) == 1 && len(n.Delete) == 0, "C03: a non-atomic feed item carries exactly one update")
@@ -62,6 +78,9 @@ func (r *c03Replayer) apply(l *ctree.Leaf) {
 				e.live = false
 			}
 		}
+		if r.c != nil {
+			r.h.Assert(r.stored(idx) == l, "C03: when an update is announced the cache already holds it under that handle")
+		}
 		r.ents = append(r.ents, &c03Ent{idx, l, n, true})
 	case len(n.Delete) > 0:
 		r.h.Assert(len(n.Delete) == 1, "C03: a delete feed item carries exactly one delete")
@@ -69,6 +88,12 @@ func (r *c03Replayer) apply(l *ctree.Leaf) {
 		for _, e := range r.ents {
 			if e.live && vMatch(q, e.idx) {
 				e.live = false
+				// (a whole-target delete announced while the target still exists is Reset's
+				// announcement for a root literally named "": it covers more than that root, the
+				// remaining roots follow at once and the replay converges - checked by agrees)
+				if r.c != nil && !(len(q) == 2 && q[1] == "*" && r.c.targets[q[0]] != nil) {
+					r.h.Assert(r.stored(e.idx) == nil, "C03: when a delete is announced the cache no longer holds what it removes")
+				}
 			}
 		}
 	default:
@@ -184,7 +209,7 @@ func VerifC03_Replay(h *zz.H) {
 	}
 	c := New([]string{vDev}, opts...)
 	vSetClock(h, "now")
-	r := &c03Replayer{h: h}
+	r := &c03Replayer{h: h, c: c}
 	c.SetClient(func(l *ctree.Leaf) {
 		// metadata updates are part of the feed but not of the data comparison
 		if n, ok := l.Value().(*pb.Notification); ok && len(n.Update) > 0 {
@@ -235,14 +260,21 @@ func VerifC03_Replay(h *zz.H) {
 			}
 		case 3: // two updates and one delete in one notification
 			gm := &c03Gen{h: h, L: h.Param("ML", 1)}
-			u1, u2, d := gm.update("m1"), gm.update("m2"), gm.delete("md")
-			n := &pb.Notification{Timestamp: u1.Timestamp, Prefix: &pb.Path{Target: vDev}}
-			// fold prefix elements into the paths so that one prefix serves all three
-			for _, u := range []*pb.Notification{u1, u2} {
+			// bundle shapes: 1 update + 1 delete, 2 updates, 2 updates + 1 delete
+			shape := h.Range("m_shape", 0, 2)
+			ups := []*pb.Notification{gm.update("m1")}
+			if shape != 0 {
+				ups = append(ups, gm.update("m2"))
+			}
+			n := &pb.Notification{Timestamp: ups[0].Timestamp, Prefix: &pb.Path{Target: vDev}}
+			// fold prefix elements into the paths so that one prefix serves all of them
+			for _, u := range ups {
 				full := append(append([]*pb.PathElem{}, u.Prefix.Elem...), u.Update[0].Path.Elem...)
 				n.Update = append(n.Update, &pb.Update{Path: &pb.Path{Elem: full}, Val: u.Update[0].Val})
 			}
-			n.Delete = d.Delete
+			if shape != 1 {
+				n.Delete = gm.delete("md").Delete
+			}
 			before := proto.Clone(n).(*pb.Notification)
 			c.GnmiUpdate(n)
 			h.Assert(proto.Equal(before, n), "C03: the caller's multi-update notification is left unmodified")
@@ -288,18 +320,36 @@ func VerifC03_MultiIsSequential(h *zz.H) {
 		ca.GnmiUpdate(proto.Clone(p).(*pb.Notification))
 		cb.GnmiUpdate(proto.Clone(p).(*pb.Notification))
 	}
-	u1, u2, d := g.update("m1"), g.update("m2"), g.delete("md")
+	// bundle shapes: 1 update + 1 delete, 2 updates, 2 updates + 1 delete, 1 update + 2 deletes
+	shape := h.Range("shape", 0, 3)
+	ups := []*pb.Notification{g.update("m1")}
+	if shape == 1 || shape == 2 {
+		ups = append(ups, g.update("m2"))
+	}
+	var dels []*pb.Path
+	if shape != 1 {
+		dels = append(dels, g.delete("md").Delete...)
+	}
+	if shape == 3 {
+		dels = append(dels, g.delete("md2").Delete...)
+	}
 	ts := h.Int64("ts")
 	pre := &pb.Path{Target: vDev}
 	mk := func(u *pb.Notification) *pb.Update {
 		full := append(append([]*pb.PathElem{}, u.Prefix.Elem...), u.Update[0].Path.Elem...)
 		return &pb.Update{Path: &pb.Path{Elem: full}, Val: u.Update[0].Val}
 	}
-	multi := &pb.Notification{Timestamp: ts, Prefix: pre, Update: []*pb.Update{mk(u1), mk(u2)}, Delete: d.Delete}
+	multi := &pb.Notification{Timestamp: ts, Prefix: pre, Delete: dels}
+	for _, u := range ups {
+		multi.Update = append(multi.Update, mk(u))
+	}
 	ca.GnmiUpdate(multi)
-	cb.GnmiUpdate(&pb.Notification{Timestamp: ts, Prefix: pre, Update: []*pb.Update{mk(u1)}})
-	cb.GnmiUpdate(&pb.Notification{Timestamp: ts, Prefix: pre, Update: []*pb.Update{mk(u2)}})
-	cb.GnmiUpdate(&pb.Notification{Timestamp: ts, Prefix: pre, Delete: d.Delete})
+	for _, u := range ups {
+		cb.GnmiUpdate(&pb.Notification{Timestamp: ts, Prefix: pre, Update: []*pb.Update{mk(u)}})
+	}
+	for _, d := range dels {
+		cb.GnmiUpdate(&pb.Notification{Timestamp: ts, Prefix: pre, Delete: []*pb.Path{d}})
+	}
 	h.Assert(c03Same(h, fa, fb), "C03: a multi-update notification is announced as the same updates then deletes one at a time")
 	la, lb := vDataLeaves(ca, vDev), vDataLeaves(cb, vDev)
 	h.Assert(len(la) == len(lb), "C03: a multi-update notification stores what the sequential application stores")
